@@ -24,6 +24,55 @@ def _in_ball(rng, centre, rmin, rmax):
     r = (rmin ** 3 + (rmax ** 3 - rmin ** 3) * rng.random()) ** (1 / 3.0)
     return tuple(centre[k] + r * d[k] for k in range(3))
 
+def capball(rng, level=1):
+    """a conducting ball whose SKIN is one interface made of two meshes (north and south caps of an octasphere sharing the
+    equator vertices), optionally with a conducting core: the outermost, sensor-carrying interface is multi-mesh"""
+    def sig(): return math.exp(rng.uniform(math.log(0.05), math.log(20.0)))
+    v0, t0 = models.octasphere(level); eps = 1e-12
+    vn, tn = models.submesh(v0, t0, lambda t: all(v0[a][2] >= -eps for a in t))
+    vs, ts = models.submesh(v0, t0, lambda t: all(v0[a][2] <= eps for a in t))
+    meshes = [("north", vn, tn), ("south", vs, ts)]
+    interfaces = [("Skin", [(+1, "north"), (+1, "south")])]
+    core = rng.random() < 0.6
+    if core:
+        vi, ti = models.icosphere(level)
+        meshes.append(("core", models.transform(vi, 0.4), list(ti))); interfaces.append(("Core", [(+1, "core")]))
+        domains = [("CORE", [(-1, "Core")]), ("BALL", [(-1, "Skin"), (+1, "Core")]), ("Air", [(+1, "Skin")])]
+        cond = {"CORE": sig(), "BALL": sig(), "Air": 0.0}
+    else:
+        domains = [("BALL", [(-1, "Skin")]), ("Air", [(+1, "Skin")])]; cond = {"BALL": sig(), "Air": 0.0}
+    return dict(meshes=meshes, interfaces=interfaces, domains=domains, cond=cond,
+                info=dict(kind="capball", topology="capball", centre=(0, 0, 0), level=level, outer_radius=1.0, core=core, outer_mesh="south"))
+
+def structured_dipoles(m):
+    """dipole positions that share coordinates EXACTLY in the reference frame (and in no rotated frame): columns along the
+    axes crossing compartment boundaries (consecutive dipoles with equal (x,y), (y,z) or (x,z) in different domains) and a
+    repeated position"""
+    info = m["info"]; topo = info["topology"]; out = []
+    def column(axis, values):
+        for v in values:
+            p = [0.0, 0.0, 0.0]; p[axis] = v; out.append(tuple(p))
+    if topo in ("nested", "isolated"):
+        radii = info["radii"]; mids = [0.5 * radii[0]]
+        for k in range(1, len(radii)):
+            if radii[k] - radii[k - 1] >= 0.04: mids.append(0.5 * (radii[k - 1] + radii[k]))
+        if len(mids) > 1:
+            for axis in (2, 0, 1): column(axis, mids + [-x for x in mids])
+    elif topo == "split":
+        ri = info["r_inner"]
+        column(2, [0.3 * ri, -0.3 * ri, 0.45 * ri, -0.2 * ri])            # NORTH / SOUTH alternately, same (x,y)
+        for x, y in ((0.2 * ri, 0.1 * ri), (-0.15 * ri, 0.25 * ri)):       # grid stored z-fastest
+            for z in (0.25 * ri, -0.25 * ri): out.append((x, y, z))
+    elif topo == "capball":
+        if info.get("core"):
+            for axis in (2, 0, 1): column(axis, [0.2, 0.62, -0.2, -0.62])   # CORE / BALL alternately
+    elif topo in ("inclusions", "nonconductive"):
+        for off, r, sg in info["blobs"]:
+            if sg != 0.0:
+                out += [tuple(off), (off[0], off[1], off[2] + 0.55), (off[0], off[1] + 0.5, off[2]) if abs(off[0]) < 0.3 else (off[0], off[1], off[2] - 0.55)]
+    if out: out.append(out[-1])                                          # the same position twice (another moment)
+    return out
+
 def make_case(rng, level=1, kinds=("nested", "nested", "split", "inclusions", "nonconductive"), ndip=4, nsens=6):
     kinds = list(kinds)
     if "isolated" in kinds and rng.random() < kinds.count("isolated") / float(len(kinds)):
@@ -35,8 +84,10 @@ def make_case(rng, level=1, kinds=("nested", "nested", "split", "inclusions", "n
         m = models.nested([r0, r1, r2, 1.0], [sig(), sig(), sig(), 0.0], level)
         m["info"]["topology"] = "isolated"; m["info"]["radii"] = [r0, r1, r2]; m["info"]["outer_radius"] = r2
         m["info"]["outer_mesh"] = "m2"
+    elif "capball" in kinds and rng.random() < kinds.count("capball") / float(max(1, len([k_ for k_ in kinds if k_ != "isolated"]))):
+        m = capball(rng, level)
     else:
-        m = models.random_model(rng, level, [k_ for k_ in kinds if k_ != "isolated"] or ["nested"])
+        m = models.random_model(rng, level, [k_ for k_ in kinds if k_ not in ("isolated", "capball")] or ["nested"])
     info = m["info"]; topo = info["topology"]; R = info["outer_radius"]
     if topo == "isolated": topo = "nested"          # sources / sensors as for a 3-layer nested model bounded by m2
     # orientation repair: one closed mesh wound inwards in the files (Interface::is_mesh_orientations_coherent has to
@@ -60,6 +111,14 @@ def make_case(rng, level=1, kinds=("nested", "nested", "split", "inclusions", "n
         points.append(_in_ball(rng, (0, 0, 0), 1.2 * R, 1.5 * R))          # in the air: dropped by the code (a decision)
         ecog_if = "I0"; ecog_r = radii[0]; ecog_c = (0, 0, 0)
         src_c = (0.03 * r0, -0.02 * r0, 0.05 * r0) if len(radii) > 1 else None; src_r = 0.35 * r0
+    elif topo == "capball":
+        core = info["core"]
+        for j in range(ndip):
+            dip_pos.append(_in_ball(rng, (0, 0, 0), 0.0, 0.3) if (core and j % 2) else _in_ball(rng, (0, 0, 0), 0.5 if core else 0.0, 0.62))
+        points = [_in_ball(rng, (0, 0, 0), 0.48 if core else 0.0, 0.6), _in_ball(rng, (0, 0, 0), 1.6, 1.9)]
+        if core: points.append(_in_ball(rng, (0, 0, 0), 0.0, 0.3))
+        ecog_if = "Skin"; ecog_r = 1.0; ecog_c = (0, 0, 0)
+        src_c = (0.02, -0.03, 0.04) if core else None; src_r = 0.25
     elif topo == "split":
         ri = info["r_inner"]
         for j in range(ndip):
@@ -99,10 +158,28 @@ def make_case(rng, level=1, kinds=("nested", "nested", "split", "inclusions", "n
         # p-unknowns of every bounding mesh): inside a conductive blob, else none
         if cond_blobs: src_c = cond_blobs[-1][0]; src_r = 0.4 * cond_blobs[-1][1]
         else: src_c = None; src_r = 0.0
-    dip_mom = [models.random_unit(rng) for _ in dip_pos]
+    dip_pos += structured_dipoles(m)
+    dip_mom = [models.random_unit(rng) if (j % 3) else ((0.0, 0.0, 1.0), (1.0, 0.0, 0.0), (0.0, 1.0, 0.0))[(j // 3) % 3] for j in range(len(dip_pos))]
     # electrodes slightly off the outer surface (|offset| <= 2 %), MEG sensors at 1.05..1.5 R
     eeg = [tuple(R * (1 + rng.uniform(-0.02, 0.02)) * c for c in models.random_unit(rng)) for _ in range(nsens)]
     ecog = [tuple(ecog_c[k] + ecog_r * (1 + rng.uniform(-0.02, 0.02)) * d[k] for k in range(3)) for d in (models.random_unit(rng) for _ in range(3))]
+    # a sensor-carrying interface made of several meshes (skin of the cap ball, north+south cortex of the split models):
+    # electrodes all around it, up to 30 % of the radius outside and 20 % inside, so that the per-mesh part of
+    # dist_point_interface (which mesh, which triangle) is exercised from every side
+    def around(c, r, n):
+        dirs = [(1, 0, 0), (-1, 0, 0), (0, 1, 0), (0, -1, 0), (0, 0, 1), (0, 0, -1)]; outl = []
+        for j in range(n):
+            d = models.random_unit(rng)
+            if j < 6:
+                b = dirs[j]; d = tuple(b[k] + 0.35 * d[k] for k in range(3)); nn = math.sqrt(sum(x * x for x in d)); d = tuple(x / nn for x in d)
+            f = 1 + rng.uniform(-0.2, 0.3)
+            outl.append(tuple(c[k] + r * f * d[k] for k in range(3)))
+        return outl
+    if topo == "capball":
+        eeg = around((0, 0, 0), R, 9); ecog = around((0, 0, 0), R, 8)
+    elif topo == "split":
+        ecog = around(ecog_c, ecog_r, 8)
+        if not any(nm.startswith("shell") for nm, _, _ in m["meshes"]): eeg = around((0, 0, 0), R, 9)
     sq_pos = [tuple(R * rng.uniform(1.05, 1.5) * c for c in models.random_unit(rng)) for _ in range(nsens)]
     sq_ori = []
     for p in sq_pos:
